@@ -240,9 +240,15 @@ def subject_hints(case):
     with open(other, 'w') as f:     # a permissive declaration of the same element
         f.write('<xs:schema xmlns:xs="http://www.w3.org/2001/XMLSchema" targetNamespace="urn:imp">'
                 '<xs:element name="e" type="xs:string"/></xs:schema>')
+    mid = os.path.join(d, 'mid.xsd')
+    with open(mid, 'w') as f:       # (transitive arrangement: main imports urn:mid, which imports urn:imp)
+        f.write('<xs:schema xmlns:xs="http://www.w3.org/2001/XMLSchema" targetNamespace="urn:mid">'
+                '<xs:import namespace="urn:imp" schemaLocation="imp.xsd"/><xs:element name="k" type="xs:string"/></xs:schema>')
     with open(main, 'w') as f:
         f.write('<xs:schema xmlns:xs="http://www.w3.org/2001/XMLSchema" targetNamespace="urn:main">'
-                '<xs:import namespace="urn:imp" schemaLocation="imp.xsd"/><xs:element name="m" type="xs:string"/></xs:schema>')
+                '%s<xs:element name="m" type="xs:string"/></xs:schema>'
+                % ('<xs:import namespace="urn:mid" schemaLocation="mid.xsd"/>' if case.get('transitive') else
+                   '<xs:import namespace="urn:imp" schemaLocation="imp.xsd"/>'))
     cls = xmlschema.XMLSchema11 if case['version'] == '11' else xmlschema.XMLSchema10
     s = cls(main)
     doc = ('<i:e xmlns:i="urn:imp" xmlns:xsi="http://www.w3.org/2001/XMLSchema-instance" '
@@ -257,24 +263,25 @@ def subject_hints(case):
             out[name] = fn()
         except Exception as e:  # noqa
             out[name] = 'EXC ' + common.exc_class(e)
-    for f in (imp, other, main):
+    for f in (imp, other, main, mid):
         os.unlink(f)
     return out
 
 
 def check_hints(ctx):
-    cases = [{'version': v, 'hint': h, 'value': val} for v in ('10', '11') for h in (True, False) for val in ('12', 'abc', '')]
+    cases = [{'version': v, 'hint': h, 'value': val, 'transitive': t} for v in ('10', '11') for h in (True, False) for val in ('12', 'abc', '')
+             for t in (False, True)]
     impl = common.pool_map(subject_hints, cases, procs=4)
     for c, o in zip(cases, impl):
-        ctx.count(('hints', c['version'], c['hint'], c['value']), nontrivial=c['value'] != '12')
+        ctx.count(('hints', c['version'], c['hint'], c['value'], c['transitive']), nontrivial=c['value'] != '12')
         if 'harness_exception' in o:
             ctx.violation('hints subject failed: %s' % o['harness_exception'], {'kind': 'hints', 'case': c}, no_input=True)
             continue
         for a, b in (('method', 'package'), ('method-errors', 'package-errors'), ('method-to_dict', 'package-to_dict')):
             if o[a] != o[b]:
-                ctx.violation('document <i:e>%s</i:e> in an imported namespace with%s a resolvable location hint (XSD %s): '
+                ctx.violation('document <i:e>%s</i:e> in a%s imported namespace with%s a resolvable location hint (XSD %s): '
                               'schema.%s gives %s, the package-level function with the same schema gives %s'
-                              % (c['value'], '' if c['hint'] else 'out', c['version'], a, o[a], o[b]),
+                              % (c['value'], ' transitively' if c['transitive'] else 'n', '' if c['hint'] else 'out', c['version'], a, o[a], o[b]),
                               {'kind': 'hints', 'case': c, 'impl': o})
                 break
 
